@@ -174,26 +174,28 @@ def words(alphabet, maxlen):
 _native = {}
 
 
-def native_tool(wd):
-    """build native/lr_dump.cpp against /repo's working tree (real libstdc++)"""
-    key = (wd, fw.REPO)
+def native_tool(wd, san=False):
+    """build native/lr_dump.cpp against /repo's working tree (real libstdc++); san: with ASan + UBSan + libstdc++ assertions (replay of container-precondition counterexamples)"""
+    key = (wd, fw.REPO, san)
     if key in _native: return _native[key]
-    exe = os.path.join(wd, 'lr_dump')
+    exe = os.path.join(wd, 'lr_dump_san' if san else 'lr_dump')
     R = fw.REPO
     srcs = [os.path.join(fw.VERIF, 'native', 'lr_dump.cpp')] + [os.path.join(R, 'Compiler/src/ParserGenerator', f) for f in ('grammar.cpp', 'lrdea.cpp')]
-    p = subprocess.run(['g++', '-std=c++20', '-O1', '-fno-access-control', '-w', '-I' + R, '-I' + os.path.join(R, 'Compiler/include')] + srcs + ['-o', exe],
+    flags = ['-g', '-fsanitize=address,undefined', '-fno-sanitize-recover=undefined', '-D_GLIBCXX_ASSERTIONS'] if san else []
+    p = subprocess.run(['g++', '-std=c++20', '-O1', '-fno-access-control', '-w'] + flags + ['-I' + R, '-I' + os.path.join(R, 'Compiler/include')] + srcs + ['-o', exe],
                        stdout=subprocess.PIPE, stderr=subprocess.PIPE, text=True)
     if p.returncode != 0: raise e1.BuildError('native build of lr_dump failed: ' + p.stderr[-1500:])
     _native[key] = exe
     return exe
 
 
-def native_dump(wd, lines, timeout=600, chunk=400, workers=8):
+def native_dump(wd, lines, timeout=600, chunk=400, workers=8, san=False):
     """run the real generator on every line; returns one dict per line ({'crash': ...} for a line that killed the tool)"""
-    exe = native_tool(wd)
+    exe = native_tool(wd, san)
+    env = dict(os.environ, ASAN_OPTIONS='detect_leaks=0:abort_on_error=0', UBSAN_OPTIONS='print_stacktrace=0')
     def run(block):
         try:
-            p = subprocess.run([exe], input='\n'.join(block) + '\n', stdout=subprocess.PIPE, stderr=subprocess.PIPE, text=True, timeout=timeout)
+            p = subprocess.run([exe], env=env, input='\n'.join(block) + '\n', stdout=subprocess.PIPE, stderr=subprocess.PIPE, text=True, timeout=timeout)
             outs = [json.loads(l) for l in p.stdout.splitlines() if l.strip()]
             rc = p.returncode; err = p.stderr[-400:]
         except subprocess.TimeoutExpired as ex:
@@ -569,7 +571,7 @@ def c13_family(tier, seed):
 def c13_obligations(prop, tier, seed, wd, out):
     """native generation for the family (both modes), FIRST comparison for every member, solver jobs for a stratified sample of the conflict-free ones"""
     n = 4 if tier == 'quick' else 6
-    per_mode = int(os.environ.get('VERIF_C13_PER_MODE', '0')) or (34 if tier == 'quick' else 260)
+    per_mode = int(os.environ.get('VERIF_C13_PER_MODE', '0')) or (40 if tier == 'quick' else 260)
     view_ok, why = driver_uses_references_immediately()
     if not view_ok:
         # the driver no longer uses its tables/stacks in the forms the by-value view models: every job runs in plain mode (tables in the real private
@@ -619,6 +621,18 @@ def c13_obligations(prop, tier, seed, wd, out):
             j = table_job(prop, prop, name, c['g'], c['tab'], 2, wd, prefix=prefix, plain=True, timeout=280 if tier == 'quick' else 900,
                           what='%s mode, %s: as above with the tables stored in the parser object\'s private action/jump vectors and read through the container model (cross-check of the table view)' % (mode, gtext(c['g'])))
             jobs.append(j); meta[name] = c
+    # encoder validation: the oracle of the harness (loop version and generated version), compiled natively, against the independent Python chart
+    st = [meta[k]['g'] for k in sorted(meta)[:2]]
+    bad = oracle_selftest(wd, st, n, maxwords=40, generated=True) + oracle_selftest(wd, st[:1], n, maxwords=40, generated=False)
+    cov['oracle_selftest'] = {'grammars': len(st), 'disagreements': len(bad)}
+    if bad: out.inconclusive.append('derivation-table oracle disagrees with the independent Python chart (encoder validation failed): %s' % json.dumps(bad[0], default=str)[:300])
+    if os.environ.get('VERIF_C13_FIRST_SYMBOLIC'):
+        # opt-in: harness/first_sets.cpp, the real calculateFirstSets/first on a symbolic grammar.  Not part of the verdict: with the flat container model it does
+        # not finish (measured: one symbolic symbol, minimal capacities: no end of symbolic execution in 600 s; concrete grammar + symbolic first() argument: 25 M variables)
+        jobs.append(fw.Job('first.symbolic', H_FIRST, 'h_first_sets', tus=['Compiler/src/ParserGenerator/grammar.cpp'], defines=['MINISTL_STR_CAP=12', 'MINISTL_MAP_CAP=3', 'MINISTL_VEC_CAP=2', 'MINISTL_FN_CAP=8', 'FS_LEN1=1'],
+                           caps='caps_lr.hpp', unwind=7, tags=[prop], native=False, timeout=int(os.environ['VERIF_C13_FIRST_SYMBOLIC']), ub_pat=r'ministl: .*\((UB|throws)\)',
+                           what='real calculateFirstSets/first on a symbolic grammar (2 nonterminals, 2 alternatives of <= 2 and <= 1 symbols) vs textbook fixpoint', bounds='see harness/first_sets.cpp',
+                           functions=['Theo::Grammar::calculateFirstSets', 'Theo::Grammar::first'], build_key=('lr', 'first.symbolic')))
     run_parallel(jobs, wd, workers=WORKERS)
     nv0 = len(out.violations)
     fw.classify(prop, jobs, wd, out)
@@ -653,9 +667,9 @@ def write_replay(prop, tag, body):
     return path
 
 
-def native_parse(wd, g, prefix, w):
+def native_parse(wd, g, prefix, w, san=False):
     """the real generator and the real driver on one concrete end-marked input (own process, time limit: tables with conflicts may loop)"""
-    d = native_dump(wd, [gline(g, prefix, w)], timeout=20, workers=1)[0]
+    d = native_dump(wd, [gline(g, prefix, w)], timeout=20, workers=1, san=san)[0]
     return d
 
 
@@ -668,10 +682,11 @@ def replay_grammar(wd, r):
         diffs = compare_first(g, d) if not d.get('crash') else [{'crash': d}]
         return {'reproduced': bool(diffs), 'differences': diffs[:6]}
     w = r['word']
-    d = native_parse(wd, g, prefix, w + [g['eof']])
+    ub = bool(re.search(r'\((UB|throws)\)|pointer|dereference', r.get('assertion', '')))
+    d = native_parse(wd, g, prefix, w + [g['eof']], san=ub)
     ref = reference(g, prefix, w)
     if d.get('crash'):
-        return {'reproduced': True, 'native': 'the native driver crashed or did not terminate (rc %s)' % d.get('rc'), 'reference': ref}
+        return {'reproduced': True, 'native': 'the native driver crashed, was stopped by a sanitizer or did not terminate (rc %s): %s' % (d.get('rc'), (d.get('stderr') or '')[-300:]), 'reference': ref}
     res = {'native': d['parse'], 'reference': ref, 'conflicts_reported': len(d['conflicts'])}
     bad = []
     if not d['conflicts']:
@@ -1062,9 +1077,32 @@ def public_verdict(wd, pat):
     return {'verdict': 'rejected' if errs else 'accepted', 'errors': errs, 'source': src}
 
 
+SCENARIO = ('DEFINE inc <ID> AS $0 := $0 + 1 END DEFINE\nDEFINE twice <P> AS $0 ; $0 END DEFINE\nx0 := 0;\ninc x0', ';\ntwice x1 := 5\n')
+
+
+def public_scenario(wd):
+    """concrete run through the public API: an accepted macro (line 1) and a rejected one (line 2, ends in <P>) in one source.  Returns the list of
+    statements of C12 that do not hold (empty: all hold) and the raw results."""
+    import ctv
+    a = ctv.native_compile(wd, {'m': SCENARIO[0] + '\n'}, 'm', tag='scn_a')          # only the accepted macro is used
+    b = ctv.native_compile(wd, {'m': SCENARIO[0] + SCENARIO[1]}, 'm', tag='scn_b')    # both are used
+    bad = []
+    for d in (a, b):
+        if d.get('crash'): return ['the compiler crashed on the scenario'], {'a': a, 'b': b}
+    nl = lambda d: [e for e in d['errors'] if 'non-linear' in e['msg']]
+    other = lambda d: [e for e in d['errors'] if 'non-linear' not in e['msg']]
+    if not (len(nl(a)) == 1 and nl(a)[0]['file'] == 'm' and nl(a)[0]['line'] == 2): bad.append('the rejected macro is reported as non-linear exactly once, at the position of its definition (m:2)')
+    if other(a): bad.append('a rejected macro does not prevent the others from being applied (the use of the accepted macro on line 4 must expand without error)')
+    if not any(e['line'] == 5 for e in other(b)): bad.append('a rejected macro is never applied (its use on line 5 must stay unexpanded and be reported by the parser)')
+    return bad, {'a': a.get('errors'), 'b': b.get('errors')}
+
+
 def replay_pattern(wd, r):
     """re-run one pattern counterexample natively: the real MacroDetector (constructor, getErrors, its own parser on the witness token sequence) against
     the Python derivation-table reference, and the public API verdict"""
+    if r.get('kind') == 'scenario':
+        bad, raw = public_scenario(wd)
+        return {'reproduced': bool(bad), 'why': bad, 'errors': raw, 'source': SCENARIO[0] + SCENARIO[1]}
     tt = token_types()
     pat = tuple(r['pattern']); g = pattern_grammar(pat, tt)
     w = r.get('word')
@@ -1072,6 +1110,7 @@ def replay_pattern(wd, r):
     if d.get('crash'): return {'reproduced': True, 'native': 'the detector crashed or did not return (rc %s)' % d.get('rc')}
     res = {'rejected': bool(d['errors']), 'conflicts': len(d['conflicts']), 'public_api': public_verdict(wd, pat)['verdict']}
     bad = []
+    if bool(d['errors']) != bool(d['conflicts']): bad.append('getErrors disagrees with the result of table generation')
     if r.get('expected_verdict') and res['public_api'] != r['expected_verdict']: bad.append('verdict %s differs from the recorded %s' % (res['public_api'], r['expected_verdict']))
     if w is not None:
         ref = reference(g, True, w); res['reference'] = ref; res['native'] = d.get('parse')
@@ -1113,6 +1152,12 @@ def c12_obligations(prop, tier, seed, wd, out):
             rp = write_replay(prop, 'pat', {'kind': 'pattern', 'pattern': list(p), 'note': 'getErrors disagrees with the generation result', 'errors': e, 'conflicts': len(d['conflicts'])})
             out.violations.append({'property': prop, 'job': 'native.getErrors', 'assertion': 'C12: a pattern gets the non-linear error, at its first token, exactly when table generation reported a conflict (%s)' % pattern_text(p), 'replay': rp, 'confirmed': True, 'cex': {}})
     cov['patterns_generated_natively'] = len(dumpsP)
+    # concrete scenario through the public API: rejected macro reported at its definition, never applied, the accepted one still applied
+    sbad, sraw = public_scenario(wd)
+    out.obligations += 3; out.discharged += 3 - len(sbad); cov['public_api_scenario'] = 'holds' if not sbad else sbad
+    for b in sbad:
+        rp = write_replay(prop, 'scn', {'kind': 'scenario', 'statement': b, 'errors': sraw})
+        out.violations.append({'property': prop, 'job': 'scenario', 'assertion': 'C12: ' + b, 'replay': rp, 'confirmed': True, 'cex': {}})
     family = [p for p in pats + sample3 if p in verdict]
     # cross-check of the transcription on the tables: the transcribed grammar + pattern through LRParser<int,int> must give the detector's tables
     dumpsG = dict(zip(family, native_dump(wd, [gline(pattern_grammar(p, tt), True) for p in family], workers=WORKERS, chunk=40)))
@@ -1138,6 +1183,26 @@ def c12_obligations(prop, tier, seed, wd, out):
             j = pattern_job(prop, nm + '.lang', p, g, a, b, nb, wd, driver=False, tt=tt, claim=True); j.lr['role'] = 'lang'; jobs.append(j)
             j = pattern_job(prop, nm + '.driver', p, g, a, b, 5 if tier == 'quick' or a['nstates'] > 60 else 6, wd, driver=True, tt=tt, claim=False); j.lr['role'] = 'driver'
             j.defines = [d for d in j.defines]; jobs.append(j)
+    def pattern_words(g, rnd, k):
+        """random derivations of the pattern language, some of them cut, extended by another statement/argument/value or with one token replaced"""
+        reach, _ = reachable_terminals(g)
+        def derive(x, d):
+            alts = [r for l, r in g['rules'] if l == x]
+            if d > 4: alts = sorted(alts, key=len)[:2]
+            out_ = []
+            for t_, kk in rnd.choice(alts): out_ += [kk] if t_ == 't' else derive(kk, d + 1)
+            return out_
+        ws = []
+        while len(ws) < k:
+            w = derive(g['start'], 0)
+            if rnd.random() < 0.5 and w: w = w + derive(rnd.choice([4, 3, 2]), 2) if rnd.random() < 0.5 else w[:rnd.randint(0, len(w))]
+            if rnd.random() < 0.3 and w: w[rnd.randrange(len(w))] = rnd.choice(reach)
+            if len(w) <= 7: ws.append(w)
+        return ws
+    stp = [p for p in family if 'PROG_TEMP' in p and verdict[p] == 'accepted'][:1] + [p for p in family if 'ARGS_TEMP' in p][:1]
+    bad = oracle_selftest(wd, [pattern_grammar(p, tt) for p in stp], 7, values=False, maxwords=60, wordgen=pattern_words)
+    cov['oracle_selftest'] = {'patterns': [pattern_text(p) for p in stp], 'disagreements': len(bad)}
+    if bad: out.inconclusive.append('C12: derivation-table oracle disagrees with the independent Python chart (encoder validation failed): %s' % json.dumps(bad[0], default=str)[:300])
     if not view_ok:
         out.inconclusive.append('C12: the by-value table view does not apply to this driver (%s): accepted patterns are not validated against the driver' % why)
     # the driver-only jobs must not carry the EXISTS obligation: rewrite their headers
